@@ -1176,6 +1176,8 @@ castexpr(struct scope *s)
 		}
 		if (t != &typevoid && !(t->prop & PROPSCALAR))
 			error(&tok.loc, "cast type must be scalar");
+		if (ct && (ct->kind == TYPEPOINTER && t->prop & PROPFLOAT || ct->prop & PROPFLOAT && t->kind == TYPEPOINTER))
+			error(&tok.loc, "cannot cast between pointer and floating types");
 		e = mkexpr(EXPRCAST, t, NULL);
 		e->toeval = toeval;
 		*end = e;
@@ -1187,6 +1189,8 @@ castexpr(struct scope *s)
 done:
 	if (ct && ct != &typevoid && !(e->type->prop & PROPSCALAR))
 		error(&tok.loc, "cast operand must have scalar type");
+	if (ct && (ct->kind == TYPEPOINTER && e->type->prop & PROPFLOAT || ct->prop & PROPFLOAT && e->type->kind == TYPEPOINTER))
+		error(&tok.loc, "cannot cast between pointer and floating types");
 	*end = e;
 	return r;
 }
